@@ -96,9 +96,18 @@ def gen_case(rng):
             if rng.random() < 0.8:
                 t['fate'], t['at'] = 'cancel_early', at
         rng.shuffle(tasks)
-    return {'seed': rng.randint(0, 2 ** 30), 'tasks': tasks,
+    case = {'seed': rng.randint(0, 2 ** 30), 'tasks': tasks,
             'submit': rng.choice(['bulk', 'bulk', 'split']),
             'pilots': rng.choice([1, 1, 2, 3])}
+    # a third of the histories: the application submits before / while the
+    # task manager learns about its pilots, and some tasks name their pilot
+    case['late_pilots'] = rng.random() < 0.33
+    if case['late_pilots']:
+        case['announce_after'] = rng.choice([0, 0, 0.001, 0.005, 0.02])
+        for t in tasks:
+            if rng.random() < 0.5:
+                t['bind'] = rng.randrange(case['pilots'])
+    return case
 
 
 def describe(t, root):
@@ -181,13 +190,22 @@ def run_case(ctx, res, case, idx=0):
         for t in case['tasks']:
             with open('%s/client/in.%s' % (mp.root, t['uid']), 'w') as f:
                 f.write('data of %s\n' % t['uid'])
-        mp.start()
+        mp.start(announce=not case.get('late_pilots'))
 
         seen = list()
         mp.tmgr.register_callback(lambda task, state:
                                   seen.append((task.uid, state)))
 
         tds = [describe(t, mp.root) for t in case['tasks']]
+        for t, td in zip(case['tasks'], tds):
+            if t.get('bind') is not None:
+                td.pilot = mp.pids[t['bind'] % len(mp.pids)]
+        if case.get('late_pilots'):
+            def announce():
+                time.sleep(case.get('announce_after', 0))
+                mp.announce_pilots()
+                mp.hits.add('late_pilots')
+            mt.Thread(target=announce, daemon=True).start()
         if case['submit'] == 'bulk':
             tasks = mp.tmgr.submit_tasks(tds)
         else:
